@@ -1216,11 +1216,7 @@ class t2grid(object):
 
         for blk in self.blocklist:
             name = blk.name
-            if name in blockmap:
-                del self.block[name]
-                mapped_name = blockmap[name]
-                self.block[mapped_name] = blk
-                blk.name = mapped_name
+            if name in blockmap: blk.name = blockmap[name]
             cons = set()
             for names in list(blk.connection_name):
                 con = []
@@ -1229,6 +1225,10 @@ class t2grid(object):
                     con.append(mapped_name)
                 cons.add(tuple(con))
             blk.connection_name = cons
+
+        # rebuild block dictionary after all blocks are renamed (so mappings
+        # that swap or cycle names don't overwrite each other's entries):
+        self.block = dict([(blk.name, blk) for blk in self.blocklist])
 
         self.connection = {}
         for con in self.connectionlist:
